@@ -199,6 +199,23 @@ def _eval(case):
                     viol.append(("ft-window/%s" % tag,
                                  "FT(delta_%d*%s, window=W) differs from FT(delta*W) by %g (N=%d)"
                                  % (k, phase, errw, N), {"k": k}))
+                # storage types of function and window: real samples with a complex window
+                # and complex samples with a real or complex window are the same product f*W
+                Wc = Wv * numpy.exp(1j * (0.3 + 0.2 * numpy.arange(N)))
+                variants = [("complex-data/complex-window", y.copy(), Wc)]
+                if numpy.imag(phase) == 0:
+                    yr = numpy.real(y).astype(float)
+                    variants += [("real-data/complex-window", yr, Wc),
+                                 ("real-data/real-window", yr, Wv)]
+                for vname, yv, wv in variants:
+                    Fv = qr.DFunction(ax, yv.copy()).get_Fourier_transform(
+                        window=qr.DFunction(ax, wv.copy()))
+                    Fr2 = qr.DFunction(ax, (yv * wv).astype(complex)).get_Fourier_transform()
+                    okv, errv = approx(Fv.data, Fr2.data, TOL, scale=abs(dt) * amp)
+                    if not okv:
+                        viol.append(("ft-window/%s/%s" % (vname, tag),
+                                     "FT(delta_%d*%s, window=W) with %s differs from FT(delta*W) "
+                                     "by %g (N=%d)" % (k, phase, vname, errv, N), {"k": k}))
             # round trip
             Fkeep = numpy.array(F.data, copy=True)
             g = F.get_inverse_Fourier_transform()
